@@ -135,6 +135,80 @@ def _depends_on_parameter(func, test):
     return bool(mentioned & derived)
 
 
+def _guarded_by_every_caller(model, graph, func, test):
+    """``assert <parameter>`` in a private helper: discharged when every call site in the package hands over an expression
+    that a dominating test of the SAME expression has already found true (``if not x: raise ...`` before the call in an
+    enclosing block, or the call inside ``if x:``).  This is what remains of a guard when a block is extracted into a
+    helper that restates its precondition."""
+    from ..model import FuncInfo
+    from ..xnone import _params
+
+    if not isinstance(test, ast.Name) or graph is None:
+        return False
+    names = [name for name, _ in _params(func)]
+    if test.id not in names or not func.name.startswith("_"):
+        return False
+    sites = 0
+    for caller in model.functions.values():
+        if not caller.module.name.startswith(model.PACKAGE):
+            continue
+        for call in walk_own(caller.node):
+            if not isinstance(call, ast.Call) or func not in [t for t in graph.resolve_call(caller, call) if isinstance(t, FuncInfo)]:
+                continue
+            bound = func.cls is not None and names and names[0] in ("self", "cls")
+            positional = names[1:] if bound else names
+            argument = None
+            for name, value in list(zip(positional, call.args)) + [(k.arg, k.value) for k in call.keywords if k.arg]:
+                if name == test.id:
+                    argument = value
+            if argument is None or not _truth_guarded(caller, argument, call):
+                return False
+            sites += 1
+    return sites > 0
+
+
+def _truth_guarded(func, expr, call):
+    wanted = ast.dump(expr)
+
+    def positive(test):
+        if isinstance(test, ast.BoolOp) and isinstance(test.op, ast.And):
+            return any(positive(value) for value in test.values)
+        return ast.dump(test) == wanted
+
+    def negative(test):
+        return isinstance(test, ast.UnaryOp) and isinstance(test.op, ast.Not) and ast.dump(test.operand) == wanted
+
+    def contains(node):
+        return any(inner is call for inner in ast.walk(node))
+
+    def search(statements):
+        for statement in statements:
+            if not contains(statement):
+                if isinstance(statement, ast.Assert) and positive(statement.test):
+                    return True
+                if isinstance(statement, ast.If) and negative(statement.test) and statement.body \
+                        and isinstance(statement.body[-1], (ast.Return, ast.Raise, ast.Continue, ast.Break)):
+                    return True
+                continue
+            if isinstance(statement, ast.If):
+                if contains(statement.test):
+                    return False
+                if any(contains(s) for s in statement.body):
+                    return positive(statement.test) or search(statement.body)
+                return negative(statement.test) or search(statement.orelse)
+            for field in ("body", "orelse", "finalbody"):
+                block = getattr(statement, field, None)
+                if isinstance(block, list) and any(isinstance(s, ast.stmt) and contains(s) for s in block):
+                    return search(block)
+            for handler in getattr(statement, "handlers", []):
+                if contains(handler):
+                    return search(handler.body)
+            return False
+        return False
+
+    return search(func.node.body)
+
+
 _SHAPES = {}
 
 
@@ -196,6 +270,9 @@ class AssertClassifier:
         if entry is not None:
             self.seen[key] = entry[0]
             return "input" if entry[0] == assert_table.INPUT else "ignore"
+        if _guarded_by_every_caller(getattr(self, "model", None), getattr(self, "graph", None), func, node.test) if getattr(self, "model", None) else False:
+            self.seen[key] = "guarded by every caller"
+            return "ignore"
         if _depends_on_parameter(func, node.test):
             if key not in self.seen:
                 self.untriaged.append(key)
@@ -212,6 +289,10 @@ def analysis(model):
     key = id(model)
     if key not in _ANALYSIS_CACHE:
         classifier = AssertClassifier()
+        classifier.model = model
+        from ..escape import CallGraph
+
+        classifier.graph = CallGraph(model)
         _ANALYSIS_CACHE[key] = (EscapeAnalysis(model, classifier), classifier)
     return _ANALYSIS_CACHE[key]
 
